@@ -305,6 +305,15 @@ class World:
         cont = self.model_at(h)
         n_before = len(cont)
         mut = ops.is_mutator(h.kind, m)
+        if mut and (ops._has_inv(a) or ops._has_inv(list((kw or {}).values()))):
+            # forbidden data as the only payload: must be rejected and change nothing
+            real = ops.real_apply(h.real, h.kind, m, a, kw, self._resolve_real)
+            self.events[("op_rejected", h.kind, m)] += 1
+            if real.ok or real.family not in ("TypeError", "ValueError"):
+                raise Mismatch("forbidden_data_not_rejected", step=s, real=real.brief())
+            if self.check_resource:
+                self.check_res(h.res, step=s)
+            return True
         before_doc = copy.deepcopy(self.docs[h.res]) if mut else None
         real = ops.real_apply(h.real, h.kind, m, a, kw, self._resolve_real)
         model = ops.model_apply(cont, h.kind, m, a, kw, self._resolve_model, real_out=real)
@@ -339,7 +348,12 @@ class World:
 
     # ------------------------------------------------------------------ oracles
     def check_res(self, r, step=None):
-        got = self.res[r].read()
+        try:
+            got = self.res[r].read()
+        except ValueError as e:
+            raw = self.res[r].raw()
+            raise Mismatch("resource_unparsable", step=step, error=str(e)[:120],
+                           raw=repr(raw[:120]) if raw is not None else None)
         if got is ABSENT:
             if not self.may_be_absent[r]:
                 raise Mismatch("resource_absent", step=step, expected=self.docs[r])
